@@ -175,7 +175,12 @@ class Interp:
         elif k == 'tsleep':
             # (top level, RT simulation) the main thread lets time pass
             if getattr(self, 'sim', None) is not None:
-                self.sim.run_until(self.sim.now + op[1])
+                lock = self.main._main_lock
+                lock.release()
+                try:
+                    self.sim.run_until(self.sim.now + op[1])
+                finally:
+                    lock.acquire()
         elif k == 'next':
             # caller's logical time (= physical time for the main thread)
             with main._main_lock:       # one action, as Routine.next is
@@ -242,15 +247,13 @@ class Interp:
             self.rec(kind='self_refused', r=who, op=op, secs=self.now())
 
     def run_top(self):
-        import contextlib
-        busy = any(op[0] == 'busy' for r in self.prog['routines'].values()
-                   for op in r['body'])
-        # Programs with steps that take physical time: the top level runs as
-        # one action under the library's lock (as a code block evaluated by
-        # the interpreter does), otherwise a clock thread could spend time
-        # between two top-level statements and later statements would start
-        # from a later 'now' than the model's single instant.
-        with (self.main._main_lock if busy else contextlib.nullcontext()):
+        # The top level runs as one action under the library's lock (as a
+        # code block evaluated by the interpreter does): otherwise a clock
+        # thread could run a routine started by an earlier statement - and
+        # spend physical time, or change a tempo - between two top-level
+        # statements, which the model takes to happen at one instant and in
+        # the written order. ('tsleep' gives the lock back while it waits.)
+        with self.main._main_lock:
             for op in self.prog['top']:
                 self.do(None, op)
 
